@@ -20,6 +20,7 @@ RULE = ("per named curve: for every TLV node of every DER container the length-f
         "missing optional fields, PEM without header / bad base64 / wrong header / str input) through VK.from_string, "
         "VK.from_der, VK.from_pem, SK.from_string, SK.from_der, SK.from_pem; distinct = operation line; non-trivial = "
         "input is not accepted unchanged (a mutated or malformed encoding)")
+LEANCHECK = ["Props.C10"]
 ASSUMPTIONS = [
     "documented set for the key loaders: UnexpectedDER, MalformedPointError, UnknownCurveError",
     "generic theorems: square_root_mod_prime returns or raises SquareRootError; Q = dG is a point with coordinates in "
@@ -167,7 +168,7 @@ def stream(ctx, per_seed):
 def correspond(ctx):
     c = Corr(ctx, "loaders")
     with K.Hooks() as hk:
-        for cv, entry, b, tag in stream(ctx, 6 if ctx.quick else 60):
+        for cv, entry, b, tag in stream(ctx, 6 if ctx.quick else 150):
             f = loaders(cv)[entry]
             out = K.real(hk, lambda: f(b))
             # model-ext mode rebuilds the generator's table in the driver for every accepted private key: sample it
@@ -189,7 +190,7 @@ def check(entry, cv, b):
 
 def search(ctx):
     n_eval = 0
-    for cv, entry, b, tag in stream(ctx, 40 if ctx.quick else 600):
+    for cv, entry, b, tag in stream(ctx, 40 if ctx.quick else 2500):
         n_eval += 1
         bad = check(entry, cv, b)
         ctx.hist("search.entry", entry)
